@@ -757,7 +757,7 @@ def consume_rule(loop, readers):
     return ("refuted", "a path back to the head of `while True` consumes nothing")
 
 
-def termination_obligations(prop, repo, files, readers=(), extra=None, unproven_ok=()):
+def termination_obligations(prop, repo, files, readers=(), extra=None, unproven_ok=(), advancers=None):
     """One obligation per while loop of `files`.  `extra`: {(file, qualname, k): {"assume": fn(env)->Bool, "why": str}}.
     Loops listed in `unproven_ok` (same key) are reported as not decided without making the check UNDECIDED."""
     extra = extra or {}
@@ -770,6 +770,7 @@ def termination_obligations(prop, repo, files, readers=(), extra=None, unproven_
             key = (rel.split("/")[-1], q, k)
             oid = f"{prop}/{rel.split('/')[-1]}::{q}/decreases#while-{k}"
             status, detail, secs, nvc, backend = "unknown", "", 0.0, 1, "dataflow"
+            adv_detail = None
             if key in unproven_ok:
                 undecided_listed.append({"loop": f"{rel}:{loop.lineno} {q} while-{k}", "why": "outside the variant rules (listed, not attempted)"})
                 continue
@@ -780,9 +781,17 @@ def termination_obligations(prop, repo, files, readers=(), extra=None, unproven_
                     break
                 if r is not None and r[0] == "refuted":
                     status, detail = r
+            if status != "proved" and key in (advancers or {}):
+                r = advance_rule(loop, advancers[key], mod, q)
+                if r is not None and r[0] == "proved":
+                    status, detail = r
+                elif r is not None:
+                    adv_detail = r[1]
             if status != "proved":
                 ea = extra.get(key, {}).get("assume")
                 s2, d2, secs, nvc = index_rule(mod, reg, uni, q, fnode, loop, ea)
+                if s2 != "proved" and adv_detail:
+                    d2 = adv_detail + " / " + d2
                 if s2 == "proved" or status != "refuted":
                     status, detail, backend = s2, d2 + ((" [assumed at loop entry: " + extra[key]["why"] + "]") if key in extra and s2 == "proved" else ""), "z3"
             if status != "proved" and key in unproven_ok:
@@ -791,6 +800,17 @@ def termination_obligations(prop, repo, files, readers=(), extra=None, unproven_
             obls.append({"id": oid, "kind": "decreases", "status": status, "vcs": max(nvc, 1), "seconds": round(secs, 4),
                          "backends": {backend: max(nvc, 1)}, "witness": None, "reason": f"{rel}:{loop.lineno} {detail}", "loc": f"{rel}:{loop.lineno}",
                          "function": f"{rel}::{q}"})
+        # callee contracts the advance rule relies on: proved here, used above (assume-guarantee)
+        for key, names in sorted((advancers or {}).items()):
+            if key[0] != rel.split("/")[-1]:
+                continue
+            for nm in sorted(names):
+                for q2 in mod.functions:
+                    if q2.split(".")[-1] == nm and q2.split(".")[:-1] == key[1].split(".")[:-1]:
+                        st_, why = next_index_contract(mod, q2)
+                        obls.append({"id": f"{prop}/{rel.split('/')[-1]}::{q2}/ensures#None-or-next-index-beyond-first-argument", "kind": "ensures",
+                                     "status": st_, "vcs": 1, "seconds": 0.0, "backends": {"dataflow": 1}, "witness": None,
+                                     "reason": f"{rel}:{mod.functions[q2].lineno} {why}", "loc": f"{rel}:{mod.functions[q2].lineno}", "function": f"{rel}::{q2}"})
     return obls, undecided_listed
 
 
@@ -845,3 +865,166 @@ def for_loop_obligations(prop, repo, files):
                     "witness": None, "reason": f"{rel}: {n} for loops / comprehensions; " + ("; ".join(bad) if bad else "none iterates an infinite constructor or grows its own iterable"),
                     "loc": rel, "function": f"{rel}::*"})
     return out
+
+
+# ------------------------------------------ advance rule (callee contract) --
+def next_index_contract(mod, q):
+    """Dataflow proof of the callee contract  `result is None or result[1] > <first parameter>`  for a function whose
+    tuple results end in `max(B) + 1` with B a local list initialised `[<first parameter>, ...]` that is only ever
+    appended to (so B[0] stays the parameter and max(B) >= B[0]).  -> (status, reason)."""
+    fnode = mod.functions[q]
+    params = [a.arg for a in fnode.args.args if a.arg not in ("self", "cls")]
+    if not params:
+        return "unknown", "no parameter"
+    P = params[0]
+    stores = {}
+    for n in _own(fnode):
+        if isinstance(n, ast.Name) and isinstance(n.ctx, ast.Store):
+            stores[n.id] = stores.get(n.id, 0) + 1
+    if stores.get(P):
+        return "unknown", f"parameter {P} is reassigned"
+
+    def is_max_plus_one(e):
+        if isinstance(e, ast.BinOp) and isinstance(e.op, ast.Add) and isinstance(e.right, ast.Constant) and isinstance(e.right.value, int) and e.right.value >= 1 \
+                and isinstance(e.left, ast.Call) and dotted(e.left.func) == "max" and len(e.left.args) == 1 and isinstance(e.left.args[0], ast.Name) and not e.left.keywords:
+            return e.left.args[0].id
+        return None
+    single = {}
+    for n in _own(fnode):
+        if isinstance(n, ast.Assign) and len(n.targets) == 1 and isinstance(n.targets[0], ast.Name) and stores.get(n.targets[0].id) == 1:
+            single[n.targets[0].id] = n.value
+    lists = set()
+    nret = 0
+    for n in _own(fnode):
+        if not isinstance(n, ast.Return):
+            continue
+        nret += 1
+        v = n.value
+        if v is None or (isinstance(v, ast.Constant) and v.value is None):
+            continue
+        if not (isinstance(v, ast.Tuple) and len(v.elts) == 2):
+            return "unknown", f"line {n.lineno}: result is neither None nor a pair"
+        e = v.elts[1]
+        if isinstance(e, ast.Name) and e.id in single:
+            e = single[e.id]
+        B = is_max_plus_one(e)
+        if B is None:
+            return "refuted", f"line {n.lineno}: second component `{ast.unparse(v.elts[1])}` is not max(<list>) + k, k >= 1"
+        lists.add(B)
+    for B in lists:
+        init = single.get(B)
+        if not (isinstance(init, ast.List) and init.elts and isinstance(init.elts[0], ast.Name) and init.elts[0].id == P):
+            return "refuted", f"`{B}` is not initialised as [{P}, ...] by a single assignment"
+        parents = {}
+        for n in _own(fnode):
+            for ch in ast.iter_child_nodes(n):
+                parents[ch] = n
+        for n in _own(fnode):
+            if isinstance(n, ast.Name) and n.id == B and isinstance(n.ctx, ast.Load):
+                par = parents.get(n)
+                if isinstance(par, ast.Attribute):
+                    if par.attr != "append":
+                        return "refuted", f"line {n.lineno}: `{B}.{par.attr}` may remove or reorder elements"
+                elif isinstance(par, ast.Call) and n in par.args:
+                    if dotted(par.func) not in ("len", "max", "min", "sorted", "list", "tuple", "enumerate"):
+                        return "unknown", f"line {n.lineno}: `{B}` escapes into {ast.unparse(par.func)}()"
+                elif isinstance(par, ast.Subscript) and isinstance(par.ctx, (ast.Store, ast.Del)):
+                    return "refuted", f"line {n.lineno}: element of `{B}` overwritten or deleted"
+                elif isinstance(par, (ast.AugAssign, ast.Delete, ast.Starred, ast.Return, ast.Yield)):
+                    return "unknown", f"line {n.lineno}: `{B}` used in {type(par).__name__}"
+            if isinstance(n, (ast.AugAssign,)) and isinstance(n.target, ast.Name) and n.target.id == B:
+                return "unknown", f"line {n.lineno}: `{B}` rebound"
+            if isinstance(n, ast.Delete) and any(isinstance(t_, ast.Name) and t_.id == B for t_ in n.targets):
+                return "unknown", f"line {n.lineno}: `{B}` deleted"
+    return "proved", f"{nret} returns: None, or (rows, max(B) + k) with B = [{P}, ...] append-only, hence > {P}"
+
+
+class _Advance(_BackEdge):
+    def __init__(self, var, advancers):
+        super().__init__(kill_names=lambda fact: self.kills.get(fact, ()))
+        self.var, self.advancers = var, advancers
+        self.kills = {}
+        self.unrecognised = []
+
+    def _callee(self, call):
+        f = call.func
+        name = f.attr if isinstance(f, ast.Attribute) and isinstance(f.value, ast.Name) and f.value.id in ("self", "cls") else f.id if isinstance(f, ast.Name) else None
+        return name if name in self.advancers else None
+
+    def stmt(self, s, facts):
+        v = self.var
+        if isinstance(s, ast.AugAssign) and isinstance(s.target, ast.Name) and s.target.id == v:
+            facts = self._expr(s.value, facts)
+            if isinstance(s.op, ast.Add) and isinstance(s.value, ast.Constant) and isinstance(s.value.value, int) and not isinstance(s.value.value, bool) and s.value.value > 0:
+                return self._kill(facts, [s.target]) | {"adv"}
+            self.unrecognised.append(s.lineno)
+            return self._kill(facts, [s.target])
+        if isinstance(s, ast.Assign) and len(s.targets) == 1:
+            t = s.targets[0]
+            if isinstance(t, ast.Name) and t.id == v:
+                if isinstance(s.value, ast.Name) and f"next:{s.value.id}" in facts:
+                    return self._kill(facts, [t]) | {"adv"}
+                self.unrecognised.append(s.lineno)
+                return super().stmt(s, facts)
+            if isinstance(t, ast.Name) and isinstance(s.value, ast.Call) and self._callee(s.value) and s.value.args \
+                    and isinstance(s.value.args[0], ast.Name) and s.value.args[0].id == v:
+                out = super().stmt(s, facts)
+                fact = f"call:{t.id}"
+                self.kills[fact] = (t.id, v)
+                return out | {fact}
+            if isinstance(t, ast.Tuple) and len(t.elts) == 2 and isinstance(t.elts[1], ast.Name) and isinstance(s.value, ast.Name) and f"call:{s.value.id}" in facts:
+                out = super().stmt(s, facts)
+                fact = f"next:{t.elts[1].id}"
+                self.kills[fact] = (t.elts[1].id, v)
+                return out | {fact}
+        if any(isinstance(n, ast.Name) and n.id == v and isinstance(n.ctx, ast.Store) for n in ast.walk(s)) and not isinstance(s, (ast.If, ast.For, ast.While, ast.Try, ast.With)):
+            self.unrecognised.append(s.lineno)
+        if isinstance(s, (ast.For, ast.AsyncFor)) and any(isinstance(n, ast.Name) and n.id == v for n in ast.walk(s.target)):
+            self.unrecognised.append(s.lineno)
+        return super().stmt(s, facts)
+
+
+def _self_attr_stable(mod, q, attr):
+    """No method of q's class other than __init__ stores to self.<attr> or calls a mutator on it."""
+    cls = ".".join(q.split(".")[:-1])
+    for q2, fn in mod.functions.items():
+        if ".".join(q2.split(".")[:-1]) != cls or q2.split(".")[-1] == "__init__":
+            continue
+        for n in ast.walk(fn):
+            if isinstance(n, ast.Attribute) and n.attr == attr and isinstance(n.value, ast.Name) and n.value.id == "self":
+                if isinstance(n.ctx, (ast.Store, ast.Del)):
+                    return f"{q2} line {n.lineno} stores self.{attr}"
+            if isinstance(n, ast.Call) and isinstance(n.func, ast.Attribute) and isinstance(n.func.value, ast.Attribute) and n.func.value.attr == attr \
+                    and isinstance(n.func.value.value, ast.Name) and n.func.value.value.id == "self" \
+                    and n.func.attr in GROWERS + ("pop", "remove", "clear", "sort", "reverse"):
+                return f"{q2} line {n.lineno} mutates self.{attr}"
+            if isinstance(n, (ast.Subscript,)) and isinstance(n.ctx, (ast.Store, ast.Del)) and isinstance(n.value, ast.Attribute) and n.value.attr == attr \
+                    and isinstance(n.value.value, ast.Name) and n.value.value.id == "self":
+                return f"{q2} line {n.lineno} writes into self.{attr}"
+    return None
+
+
+def advance_rule(loop, advancers, mod=None, q=None):
+    """`while var < <stable bound>`: every store to `var` in the body is `var += k` (k > 0) or `var = n` with n the second
+    component of the pair returned by an advancer called with `var` (contract: result[1] > argument), and every path back to
+    the head performs at least one of them.  All values of `var` in the body are then >= its value at the head, and > after a store."""
+    cands = [c for c in guard_candidates(loop.test) if c[1] == "inc" and c[3] is not None]
+    for (var, _d, conj, bound) in cands:
+        if {n.id for n in ast.walk(bound) if isinstance(n, ast.Name)} & assigned(loop.body):
+            continue
+        unstable = None
+        for n in ast.walk(bound):
+            if isinstance(n, ast.Attribute) and isinstance(n.value, ast.Name) and n.value.id == "self" and mod is not None:
+                unstable = unstable or _self_attr_stable(mod, q, n.attr)
+        if unstable:
+            return ("unknown", f"bound `{ast.unparse(bound)}` is not stable: {unstable}")
+        mf = _Advance(var, advancers)
+        end = mf.block(loop.body, frozenset())
+        outs = list(mf.continues) + ([end] if end is not None else [])
+        if mf.unrecognised:
+            return ("unknown", f"store to `{var}` at line(s) {mf.unrecognised} is neither `+= k` nor the next index of an advancer")
+        if all("adv" in o for o in outs):
+            return ("proved", f"every path back to the head advances `{var}` (`{var} += k`, or `{var} = next` with next > {var} by the contract of "
+                              f"{'/'.join(sorted(advancers)) or '-'}); bound `{ast.unparse(bound)}` not assigned in the body nor by any method of the class")
+        return ("unknown", f"a path back to the head does not advance `{var}`")
+    return None
